@@ -325,6 +325,10 @@ func sortedKeys(m State) []string {
 
 func (r *Runner) doFold(op *Op) {
 	want := sortedKeys(r.M)
+	snap := r.M // what Fold must visit: the mapping when it was called
+	if len(op.Sub) > 0 {
+		snap = r.M.clone() // the callback writes (op.Sub: a Put or Delete at the visit numbered Sub[i].N)
+	}
 	stop := -1
 	if op.Flag {
 		stop = op.N
@@ -332,12 +336,28 @@ func (r *Runner) doFold(op *Op) {
 	var seen []string
 	var bad string
 	var err error
+	step := r.step
 	if !r.call("Fold", func() {
 		err = r.DB.Fold(func(k, v []byte) bool {
 			seen = append(seen, string(k))
-			if w, ok := r.M[string(k)]; !ok || !beq(w, v) {
+			if w, ok := snap[string(k)]; !ok || !beq(w, v) {
 				if bad == "" {
-					bad = fmt.Sprintf("Fold visited (%q, %s), model has %s", k, show(v), show(w))
+					bad = fmt.Sprintf("Fold visited (%q, %s), the mapping held %s when Fold was called", k, show(v), show(w))
+				}
+			}
+			for si := range op.Sub {
+				if w := &op.Sub[si]; w.N == len(seen)-1 && !r.violated() {
+					// a write from inside the callback (Fold holds no lock while it calls back): later writes must
+					// not disturb the snapshot being visited
+					old := r.judging
+					r.judging = false
+					if w.K == "put" {
+						r.doPut(step, w)
+					} else {
+						r.doDel(step, w)
+					}
+					r.judging = old
+					r.inc("fold_callback_writes")
 				}
 			}
 			return !(stop >= 0 && len(seen) > stop)
